@@ -16,8 +16,10 @@ from common import f2h
 warnings.filterwarnings("ignore")
 
 VALID_PDGS = [211, -211, 111, 321, -321, 2212, -2212, 2112, 3122, 22, 11, -11, 13, 12, 1, -2, 3, 4, -5, 6, 21,
-              421, 521, 4122, 5122, 3312, 221, 113, 1000010020]
-INVALID_PDGS = [99999, 1234567, 77]
+              421, 521, 4122, 5122, 3312, 221, 113, 333, 443, 1000010020]
+# invalid codes include sign-flipped self-conjugate mesons: |code| is a valid particle, the code itself is not
+# (anything that decides per |pdg|, e.g. a lookup cache shared by particle and antiparticle, must show)
+INVALID_PDGS = [99999, 1234567, 77, -111, -221, -113, -333, -443]
 
 CLASS_METHODS = ["is_hadron", "is_lepton", "is_quark", "is_meson", "is_baryon", "has_up", "has_down", "has_strange",
                  "has_charm", "has_bottom", "has_top"]
